@@ -3,15 +3,11 @@ from __future__ import annotations
 
 import ast
 
-from ..flow import enumerate_paths
-from ..peval import Unsupported
-from ..poly import Poly, Rat, S, Fn
-from ..qeval import QEval, ArrayV, VectorV, UnitV, NumV, DimError, R
-from ..source import norm, const_value, walk_no_nested, AnalysisError
+from ..poly import S
+from ..qeval import QEval, ArrayV, VectorV, UnitV
 from . import coretypes as ct
 from . import core_folds as cf
-from .common import is_name, params, single_return, returns_of, bind_call
-from .vector_rules import (check_vector_forwarding, check_component_map, VECTOR, VBINOP, FORWARDED)
+from .vector_rules import VECTOR, FORWARDED
 
 EXPLANATION = 'Folds of the Vector class interpreted over component tokens: (R1) every operator applies the same-named Array operator to every component pair for 1-3 components and operand kinds (Vector, Array, number, ndarray, Quantity), results named/shaped consistently; (R2) component-count gate, unary/mapping methods, numpy dispatch on every component, nvec, norm recomputed after an in-place component change (no cache); (R3-R5) cross = determinant formula, norm = sqrt(sum of squares), dot = sum of products, as physical quantities (symbolic execution with units); (R6) construction from Arrays validates shape and unit of every component, the unit setter reaches every component.'
 NOT_DECIDED = 'numeric values; broadcasting between components of different shapes (rejected by the constructor)'
